@@ -318,6 +318,17 @@ fn run_suite<S: ShortGroupSignatureScheme>(v: &Value, ps: bool) -> Value {
         let mut disc_idx: Vec<usize> = st["disclosed"].as_array().unwrap().iter().map(|x| x.as_u64().unwrap() as usize).collect();
         disc_idx.sort();
         disc_idx.dedup();
+        if id == target && devk == "withhold_consistent" && !disc_idx.is_empty() {
+            // the holder treats a requested claim as hidden everywhere (map, index list, proof of knowledge)
+            disc_idx.remove(0);
+        }
+        if id == target && devk == "extra_consistent" {
+            // the holder discloses a claim that was not requested, consistently everywhere
+            if let Some(i) = (1..n).find(|i| !disc_idx.contains(i) && !shared.contains_key(&(id.clone(), *i))) {
+                disc_idx.push(i);
+                disc_idx.sort();
+            }
+        }
         // what the holder claims to be signed (deviation: a substituted message vector)
         let mut msgs = cred.msgs.clone();
         let mut rep_claims = cred.claims.clone();
